@@ -56,6 +56,16 @@ pub struct Elem {
     pub src_pos: usize,
 }
 
+thread_local! {
+    /// children of flat_map stages visited by the evaluations of this thread since the last `take_exp()`
+    static EXP_VISITED: std::cell::Cell<u64> = const { std::cell::Cell::new(0) };
+}
+
+/// number of flat_map children the reference evaluations visited (a lazy expansion is asked for exactly these)
+pub fn take_exp() -> u64 {
+    EXP_VISITED.with(|c| c.replace(0))
+}
+
 /// Pushes `e` through stages `chain[s..]`; `sink` returns false to stop the whole evaluation.
 fn push(chain: &[Kind], s: usize, e: Elem, calls: &mut Vec<Call>, sink: &mut dyn FnMut(Elem, &mut Vec<Call>) -> bool) -> bool {
     if s == chain.len() {
@@ -82,6 +92,7 @@ fn push(chain: &[Kind], s: usize, e: Elem, calls: &mut Vec<Call>, sink: &mut dyn
         Kind::X => {
             let n = n_children(st, e.slot);
             for k in 0..n {
+                EXP_VISITED.with(|c| c.set(c.get() + 1));
                 let c = Elem { id: label(st, e.id, k), slot: child_slot(e.slot, k), src_pos: e.src_pos };
                 if !push(chain, s + 1, c, calls, sink) {
                     return false;
